@@ -268,7 +268,12 @@ _SWAPS = [(r'\b\d+\b', ['0', '1_0', '0x1f', '1.5', '1e3', '2j', '0o7']),
           (r'==', ['!=', '<=', '>=', ' is ', ' in ']), (r'\+', ['-', '*', '@', '//', '**']),
           (r'\band\b', ['or']), (r'"[^"\\\n]*"', ["'s'", 'b"b"', 'r"r"', 'f"{x}"', '"""t"""']),
           (r'\bself\b', ['é', 'x']), (r'\(\)', ['(x)', '(*a)', '(**k)', '(x, y=1)']),
-          (r':\n', [':  # c\n']), (r'\n', ['\n\n', '\n# c\n']), (r' = ', [' = (\n    ', ' = \\\n  ', ' += ']),
+          (r':\n', [':  # c\n']), (r'\n', ['\n\n', '\n# c\n']),
+          # line ends: a continuation followed by a blank / whitespace-only line or the end of the file, semicolons,
+          # trailing blanks, form feed lines (the reference decides which of these are still programs)
+          (r'\n', [' \\\n\n', '\\\n\n', ' \\\n   \n', ' \\\r\n\r\n', ';\n', ' ;\n', '  \n', '\n\f\n', '\n    \n', '\r\n', '\r']),
+          (r'\n\Z', ['', ' \\\n', '\n\\\n', '  ', '\n\n\n', ' # c']),
+          (r', ', [',\n    ', ', \\\n  ', ',  # c\n ', ',']), (r' = ', [' = (\n    ', ' = \\\n  ', ' += ']),
           (r'\bNone\b', ['...', '(yield)', 'lambda: 0', '[i for i in x]', 'f"{x!r:>{w}}"']),
           (r'\bdef\b', ['async def']), (r'\breturn\b', ['return *a,', 'yield', 'yield from', 'return await'])]
 
